@@ -51,14 +51,34 @@ func (x *Exec) gridTargets() []gridTarget {
 
 // gridOp returns an operation for the least-exercised applicable target.
 func (x *Exec) gridOp(vs []entView, mk func(string) GenOp, fill func(o *GenOp, add []string, ord int)) (GenOp, bool) {
+	return x.gridOpIn(vs, mk, fill, false)
+}
+
+// gridOpLocked: the least-exercised structural target while the world is locked - every generated structure-changing
+// method of every arity must reject a locked world without effect (C07); counted separately from the unlocked hits.
+func (x *Exec) gridOpLocked(vs []entView, mk func(string) GenOp, fill func(o *GenOp, add []string, ord int)) (GenOp, bool) {
+	return x.gridOpIn(vs, mk, fill, true)
+}
+
+func (x *Exec) gridOpIn(vs []entView, mk func(string) GenOp, fill func(o *GenOp, add []string, ord int), locked bool) (GenOp, bool) {
 	ts := x.gridTargets()
-	idx := make([]int, len(ts))
-	for i := range idx {
-		idx[i] = i
+	hits := x.ghits
+	idx := make([]int, 0, len(ts))
+	if locked {
+		if x.ghitsL == nil {
+			x.ghitsL = make([]int, len(ts))
+		}
+		hits = x.ghitsL
+	}
+	for i := range ts {
+		if locked && (ts[i].meth == "Set" || ts[i].meth == "QOpen" || ts[i].meth == "QOpenRel" || ts[i].meth == "RegF") {
+			continue // allowed on a locked world
+		}
+		idx = append(idx, i)
 	}
 	off := x.rng.Intn(len(ts))
 	sort.SliceStable(idx, func(a, b int) bool {
-		ha, hb := x.ghits[idx[a]], x.ghits[idx[b]]
+		ha, hb := hits[idx[a]], hits[idx[b]]
 		if ha != hb {
 			return ha < hb
 		}
@@ -67,7 +87,7 @@ func (x *Exec) gridOp(vs []entView, mk func(string) GenOp, fill func(o *GenOp, a
 	for k := 0; k < len(idx) && k < 60; k++ {
 		if o, ok := x.gridBuild(ts[idx[k]], vs, mk, fill); ok {
 			if o.Op != "New" || strings.HasPrefix(ts[idx[k]].meth, "New.") {
-				x.ghits[idx[k]]++ // (a preparation step does not count)
+				hits[idx[k]]++ // (a preparation step does not count)
 			}
 			return o, true
 		}
